@@ -532,6 +532,13 @@ class Output(object):
             if self.tick_font_size is not None:
                 label.set_fontsize(self.tick_font_size)
 
+        # Set the scale before the ticks, since changing the scale resets ticks and tick labels
+        if not self.skip_log:
+            if self.xlog:
+                ax.set_xscale('log')
+            if self.ylog:
+                ax.set_yscale('log')
+
         # X-ticks values
         if self.xticks is not None:
             # Convert date to datetime objects
@@ -560,11 +567,6 @@ class Output(object):
         # Y-axis limits
         if self.ylim is not None:
             ax.set_ylim(self.ylim)
-        if not self.skip_log:
-            if self.xlog:
-                ax.set_xscale('log')
-            if self.ylog:
-                ax.set_yscale('log')
 
     def _adjust_axes(self, data):
         """
